@@ -8,7 +8,7 @@ import time
 
 from vxlib import Machinery, VERIF, REPO
 
-CACHE = os.path.join(VERIF, ".cache")
+CACHE = os.environ.get("VERIF_CACHE", os.path.join(VERIF, ".cache"))
 
 # name -> metadata.  `bound` non-empty = bounded stand-in (never counted as proved).
 H = {
